@@ -7,7 +7,9 @@
 #include "core/arena.h"
 #include "core/buffer.h"
 #include <stdbool.h>
+#ifndef VERIF_COV
 void __lsan_disable(void); void __lsan_enable(void);
+#endif
 
 static long g_count = 0, g_fail_at = -1; static int g_armed = 0; static int g_failed = 0;
 #define MAX_SITES 4096
